@@ -62,6 +62,10 @@ CLAIMED = {
          "Decides the sentinel, bounds, factors, guard structure and conversion shapes; the accepted set of NewLatitude/NewLongitude is exact for all 2^32 inputs because the argument is only compared with constants (finite set of orderings). Known finding: +90 degrees exactly is rejected. The numeric clauses (round trip within one semicircle, printed form within 2e-5, bijection of seconds) need enumeration of 2^32 values and are not decided.",
          "Trusted: evaluator transfer functions; IEEE-754 semantics of the named operations; strconv.FormatFloat. Not decided: numeric accuracy clauses.",
          "DESIGN.md 4 C17"),
+ "C05": ("other", "effect/ordering rules on Encode (SSA dominance), exhaustive evaluation of the emitted record-header bytes over all 256 local numbers, definition-layout shape rules, per-class agreement of declared and emitted field sizes over every (kind, base, array) class of the profile table, typestate dataflow for 'definition written before data'",
+         "Decides the structural well-formedness conditions: promised post-state stored, data size taken after the last record, header bytes in the decoder's classes, definition layout, declared size = emitted size for every table class, each data record preceded by its own written definition. These hold for every File because they are properties of the encoder's code and the constant table. Wire values and conformance under an independent parser are not observed.",
+         "Trusted: encoding/binary.Write size semantics; C15 and C13 results. Not decided: value equality on the wire; custom binary.ByteOrder implementations.",
+         "DESIGN.md 4 C05"),
 }
 
 NOT_APPLICABLE = {
